@@ -523,13 +523,15 @@ def e_mask(which):
 
 
 # ---- aligners
-def e_align(which):
+def e_align(which, force_metric=None):
     def build(rng):
         from pb_bss import permutation_alignment as pa
         K, F, T = int(rng.integers(2, 4)), int(2 * rng.integers(2, 9) + 1), int(rng.integers(4, 10))
         mask = rng.uniform(0.01, 1, size=(K, F, T))
         mask /= mask.sum(0, keepdims=True)
         metric = ['cos', 'euclidean', 'multiply'][int(rng.integers(0, 3))]
+        if force_metric is not None:
+            metric = force_metric
         alg = ['greedy', 'optimal'][int(rng.integers(0, 2))]
         lab = 'K=%d F=%d T=%d %s/%s' % (K, F, T, metric, alg)
         if which == 'dhtv':
@@ -537,7 +539,7 @@ def e_align(which):
             st = int(rng.integers(0, F - w))
             al = pa.DHTVPermutationAlignment(stft_size=2 * (F - 1), segment_start=st, segment_width=w,
                                              segment_shift=int(rng.integers(1, 4)), main_iterations=int(rng.integers(1, 4)),
-                                             sub_iterations=int(rng.integers(1, 3)), similarity_metric=metric if metric != 'multiply' else 'cos')
+                                             sub_iterations=int(rng.integers(1, 3)), similarity_metric=metric)
             return (lambda mask: [al.calculate_mapping(mask), al(mask)]), dict(mask=mask), lab
         if which == 'greedy':
             al = pa.GreedyPermutationAlignment(similarity_metric=metric, algorithm=alg)
@@ -621,6 +623,9 @@ def entry_points():
         E['mask.%s' % w] = e_mask(w)
     for w in ('dhtv', 'greedy', 'oracle', 'apply_mapping'):
         E['alignment.%s' % w] = e_align(w)
+        if w in ('dhtv', 'greedy', 'oracle'):
+            for mt in ('cos', 'euclidean', 'multiply'):     # every documented similarity metric, every run
+                E['alignment.%s[%s]' % (w, mt)] = e_align(w, mt)
     for w in ('si_sdr', 'input_sxr', 'output_sxr', 'get_snr', 'set_snr'):
         E['metric.%s' % w] = e_metric(w)
     return E
